@@ -460,6 +460,8 @@ def run(rep):
     from pgv.replayers import c10 as R10
     for res in R10.order_cases():
         rep.add_bounded(f"{P}/bounded.{res['name']}", res['ok'], res['detail'], replay={'kind': 'c10.order_case', 'name': res['name']})
+    for res in R10.key_order_cases():
+        rep.add_bounded(f"{P}/bounded.{res['name']}", res['ok'], res['detail'], replay={'kind': 'c10.key_order', 'name': res['name']})
     for res in R10.long_array_cases():
         rep.add_bounded(f"{P}/bounded.{res['name']}", res['ok'], res['detail'], replay={'kind': 'c10.long', 'name': res['name']})
     for res in R10.point_generation_cases():
